@@ -46,6 +46,20 @@ theorem C18_call {R : Type} (body : Assignment → R) (s : Sig) (hwf : s.wf = tr
   obtain ⟨hB, ho, hi⟩ := built_of_init s hwf c1 o i F n1 h1 ha1 hF hn1
   rw [functorCall_eq s hwf F n1 n2 hB c2 o? i? h2 ha2 (by rw [hi]; exact hn2) (by rw [ho]; exact hcompat)]
 
+/-- Without `override_args`, an argument bound at construction and supplied again at call time is
+refused with `TypeError` — never silently overridden. (Holds for named parameters and `**kwargs`
+entries; prebound `*args` ARE silently replaced by call-time surplus positionals, which is what
+`mergeNamed` in `C18_call` says — observation O1 in the report.) -/
+theorem C18_no_silent_override (s : Sig) (hwf : s.wf = true) (c1 c2 : Call) (o i : Bool)
+    (o? i? : Option Bool) (F : Functor) (n1 n2 : Named)
+    (h1 : c1.wf = true) (ha1 : AvoidsVarargsName s c1)
+    (hF : functorInit s c1 o i = .ok F) (hn1 : nameArgs s c1 = .ok n1)
+    (hn2 : nameArgs s (if i?.getD i = true then dropExtras s c2 else c2) = .ok n2)
+    (hovr : o?.getD o = false) (hconf : conflicts n1 n2 = true) :
+    functorCall true F c2 o? i? = .error .typeError := by
+  obtain ⟨hB, ho, hi⟩ := built_of_init s hwf c1 o i F n1 h1 ha1 hF hn1
+  exact functorCall_conflict s F n1 n2 hB c2 o? i? (by rw [hi]; exact hn2) (by rw [ho]; exact hovr) hconf
+
 /-- Construction-time binding: if `F(*a, **k)` is accepted then `F(*a, **k)()` is `f(*a, **k)`:
 same assignment, or the same class of error (missing required arguments). -/
 theorem C18_construct {R : Type} (body : Assignment → R) (s : Sig) (hwf : s.wf = true)
@@ -185,6 +199,11 @@ example : ∃ F, functorInit exSig ⟨[1], [(2, 5)]⟩ true false = .ok F ∧
 example : ∃ F, functorInit exSig Call.empty false false = .ok F ∧
     functorCall true F ⟨[1], [(0, 2), (2, 0)]⟩ none none = .error .typeError := by
   refine ⟨_, rfl, ?_⟩; decide
+-- F(1)(2) without override_args is refused
+example : ∃ F n1 n2, functorInit exSig ⟨[1], []⟩ false false = .ok F ∧ nameArgs exSig ⟨[1], []⟩ = .ok n1 ∧
+    nameArgs exSig ⟨[2], []⟩ = .ok n2 ∧ conflicts n1 n2 = true ∧
+    functorCall true F ⟨[2], []⟩ none none = .error .typeError := by
+  refine ⟨_, _, _, rfl, rfl, rfl, ?_, ?_⟩ <;> decide
 example : AvoidsVarargsName exSig ⟨[1], [(2, 5)]⟩ := by intro p hp; simp at hp; subst hp; decide
 
 end Pg.C18
